@@ -331,10 +331,11 @@ for mode, name in ((1, 'verbose'), (2, 'interface')):
             job(id='C.%s.logupd.c%d.d%d' % (M_LOG.name, c, d), entry='step_logger_update', key=[c, i, 0, d], props=['C16'], tier='quick' if (mode == 1 and d in (1, 4)) else 'thorough',
                 carriers=[r'R_<.*>::update'], case_key='%s/logger during update/cfg=%d/dest=%d' % (name, c, d), **base)
 
-M_UTILN = Machine('utiln', 'tier_c/m_util.cpp', [-1, 0, 0, 2, 2, 4, 4, 2, 7, 7], ['C', 'L', 'C', 'L', 'C', 'L', 'L', 'O', 'L', 'L'], defs={'VM_NESTED_UTIL': None}, unwind=22)
-for region in (2, 4):
-    job(id='C.utiln.utilize_nested.r%d' % region, tu=M_UTILN.tu, defs=M_UTILN.defs, entry='step_utilize_nested', key=[region], props=['C12', 'C01', 'C02', 'C11'], unwind=22, objbits=12, timeout=900,
-        carriers=[r'C_<.*>::deepReportUtilize', r'O_<.*>::deepReportUtilize', r'OS_<.*>::wideReportUtilize', r'C_<.*>::deepRequestUtilize'], case_key='nested utility/utilize region %d' % region)
+M_UTILN = Machine('utiln', 'tier_c/m_util.cpp', [-1, 0, 0, 2, 3, 3, 2, 2, 7, 7, 9, 9], ['C', 'L', 'C', 'C', 'L', 'L', 'L', 'O', 'L', 'C', 'L', 'L'], defs={'VM_NESTED_UTIL': None}, unwind=26)
+for region, full, tier in ((2, 0, 'quick'), (3, 0, 'quick'), (9, 0, 'quick'), (2, 1, 'thorough')):
+    job(id='C.utiln.utilize_nested.r%d%s' % (region, '.full' if full else ''), tu=M_UTILN.tu, defs=M_UTILN.defs, entry='step_utilize_nested', key=[region, full], props=['C12', 'C01', 'C02', 'C11'], unwind=26, objbits=12,
+        timeout=1500, mem_gb=24, tier=tier, cbmc_flags=['--slice-formula'],
+        carriers=[r'C_<.*>::deepReportUtilize', r'O_<.*>::deepReportUtilize', r'OS_<.*>::wideReportUtilize', r'C_<.*>::deepRequestUtilize'], case_key='nested utility/utilize region %d%s' % (region, ' incl. product/mean rule' if full else ''))
 
 # ------------------------------------------------------------------ C11: request queue beyond capacity (known finding)
 for m in (M_RES, M_NEST):
@@ -387,6 +388,7 @@ QUICK_TABLE = [
     (r'^C\.resumable\.q2\.',              []),
     (r'^C\.plan\.c\d',                   ['C06']),
     (r'^C\.plan2\.',                     ['C06']),
+    (r'^C\.utiln\.utilize_nested\.r2$',  ['C12', 'C01']),
     (r'^C\.util',                        ['C12']),
     (r'^C\.payload\.',                   ['C14']),
     (r'^C\.log_',                        ['C16']),
